@@ -76,6 +76,11 @@ def run(ctx):
                     ctx.violation(RN, k + "|selection-condition", "`%s` is emitted on a path that is not decided by %s" % (ident, " && ".join(n + "()" for n, _ in sorted(need))), loc,
                                   {"guards": sorted(map(str, g))})
 
+    if ctx.tier == "thorough":
+        # independent cross-check of the solver by the real type checker: compile-fail witnesses with compiling twins
+        import witness
+        witness.check(ctx, "C28")
+
 
 def _ordinal(b, bb, nm, ident):
     """stable ordinal of this call among the same kind of calls in the body (keys must not contain line numbers)"""
